@@ -122,6 +122,11 @@ class Monitors:
                     self.fail("C11 resources %r" % (last.get("resources"),))
                 if len(set(sts)) != len(sts):
                     self.fail("C11 status published twice: %s" % sts)
+                # every notification of one execution tells the same story about what does not change
+                first = notes[0][1]["detail"]
+                for k in ("executionArn", "stateMachineArn", "name", "input", "startDate"):
+                    if d.get(k) != first.get(k):
+                        self.fail("C11 %s notification reports %s=%r but the RUNNING notification reported %r" % (d["status"], k, d.get(k), first.get(k)))
                 if rec is not None:
                     if rec["status"] != d["status"]:
                         self.fail("C11 record status %s vs notification %s" % (rec["status"], d["status"]))
